@@ -11,6 +11,9 @@ CLAIMED = {
     "C01": ("exploration",
             "Seeded histories (1-40 operations, thorough up to 200) over the 16 Filespace methods plus buffer-mutation pseudo-operations on the memfs root and child views, paths in random spellings; refinement against ModelTree step by step: result class, then the whole tree walked through the public interface, queries in several spellings through every view, and every earlier returned slice/listing (snapshot clause). Single task, fault-free configuration of the simulator.",
             "Sampling of histories; unspecified cases (listed in the evidence assumptions) are accepted either way and cut the history when the resulting state is not defined by the statement."),
+    "C04": ("fault_enumeration",
+            "Stream shape: Writer over absent/shorter/equal/longer prior content with random chunkings, read back through ReadFile and Reader with random buffer sizes and legal short reads, on memory, disk, encrypted (both ciphers, over both bases) and cache backends. Copy shape: random trees copied between every backend pair with StreamCopy / Copier / Copy (real fsloop under the seeded scheduler), destination pre-populated with longer files; a dry run counts the I/O positions on both sides, then every position x applicable fault kind (op-error, read-error, write-error, torn-write, close-error; above the stack or below the encryption) is injected once under the dry run's choices: helper returned nil => destination is a complete byte-exact copy.",
+            "Every I/O position of each sampled copy is faulted (every k-th above 80); cases are sampled. No fault below diskfs (no seam)."),
     "C06": ("fault_enumeration",
             "Seeded cases (initial remote tree, 1-25 cache operations on overlapping paths through the cache and its child views, intermediate Commits) run under the simulator (directory copies run a real fsloop); fault-free execution: remote untouched before Commit, remote = model (initial remote + accepted operations applied directly) after; then the final Commit is re-executed once for EVERY remote I/O position x applicable fault kind (op-error, write-error, torn-write, close-error) under the recorded choices of the dry run: the Commit must report the failure and a following fault-free Commit must bring the remote to the model tree. Journal iteration orders inside Commit are seeded choices.",
             "Every position of the last Commit of each sampled case is faulted; cases themselves are sampled. The model applies an operation only if the cache accepted it; histories are cut where the statement does not define the result."),
